@@ -604,6 +604,49 @@ func (c *streamCtx) dirC19() []genCase {
 		b.done()
 		out = append(out, single(s, "C19 two batches: "+v))
 	}
+	// large requests (more nodes than any batch size a provider uses internally): the whole request is one unit — refused as a
+	// whole against the ASG minimum, stopped at the first refusal / non-member wherever it sits, and no Node object goes before
+	// the cloud accepted every termination
+	for _, N := range []int{23, 45} {
+		for vi, v := range []string{"ok", "terminate-fails-late", "nonmember-late", "min-blocks", "delete-fails-late", "terminate-fails-early"} {
+			if !c.thorough && N == 45 && vi%2 == 1 {
+				continue
+			}
+			for _, path := range []string{"reap", "force"} {
+				s := newSpec(base, nsOffsets[(N+vi)%3])
+				b := s.group("g1")
+				b.o.MinNodes = 0
+				b.o.MaxNodes, b.asgMax = 100, 100
+				b.node(0, 7200)
+				b.node(1, 7300)
+				late := N - 2
+				for i := 0; i < N; i++ {
+					var n *v1.Node
+					if path == "force" {
+						n = b.node(2+i, 8000+int64(i), forced())
+					} else {
+						n = b.node(2+i, 8000+int64(i), escAge(base, 1000))
+					}
+					if v == "nonmember-late" && i == late {
+						b.nonMembers[n.Name] = true
+					}
+				}
+				switch v {
+				case "terminate-fails-late":
+					b.aws.TermInAsgFail = []string{b.instanceOf(2 + late)}
+				case "terminate-fails-early":
+					b.aws.TermInAsgFail = []string{b.instanceOf(2 + 1)}
+				case "min-blocks":
+					b.asgMin = 4 // desired N+2: N-2 may go, not N
+				case "delete-fails-late":
+					b.k8s.DeleteFail = []string{b.nodeName(2 + late)}
+				}
+				b.util(55, 0, true, false)
+				b.done()
+				out = append(out, single(s, fmt.Sprintf("C19 large request of %d (%s): %s", N, path, v)))
+			}
+		}
+	}
 	return out
 }
 
